@@ -18,6 +18,14 @@ Violations(s) == {
   [label |-> "duplicate-field", new |-> Set(s, "B", [T(s, "B") EXCEPT !.fields = Append(@, D!Fld("id", Named("ID"), <<>>))])],
   [label |-> "bad-field-name", new |-> Set(s, "B", [T(s, "B") EXCEPT !.fields = Append(@, D!Fld("__bad", Named("ID"), <<>>))])],
   [label |-> "bad-type-name", new |-> [s EXCEPT !.types = Append(@, [k |-> "scalar", name |-> "__Bad"])]],
+  \* the name rule holds for EVERY named element: arguments, input fields, enum values; a name is the WHOLE string
+  \* (/[_A-Za-z][_0-9A-Za-z]*/ anchored at both ends: a trailing line feed is not part of a name)
+  [label |-> "bad-argument-name", new |-> Set(s, "B", [T(s, "B") EXCEPT !.fields = Append(@, D!Fld("wa", Named("Int"), <<D!Arg("__badarg", Named("Int"))>>))])],
+  [label |-> "bad-input-field-name", new |-> Set(s, "In", [T(s, "In") EXCEPT !.fields = Append(@, D!Arg("__badin", Named("Int")))])],
+  [label |-> "bad-input-field-name-dash", new |-> Set(s, "In", [T(s, "In") EXCEPT !.fields = Append(@, D!Arg("bad-dash", Named("Int")))])],
+  [label |-> "bad-enum-value-name", new |-> Set(s, "E", [T(s, "E") EXCEPT !.values = Append(@, [name |-> "__BADV", dep |-> "", py |-> "bv"])])],
+  [label |-> "field-name-with-trailing-newline", new |-> Set(s, "B", [T(s, "B") EXCEPT !.fields = Append(@, D!Fld("nlname\n", Named("ID"), <<>>))])],
+  [label |-> "type-name-with-trailing-newline", new |-> [s EXCEPT !.types = Append(@, [k |-> "scalar", name |-> "NlType\n"])]],
   [label |-> "input-type-in-output-position", new |-> Set(s, "B", [T(s, "B") EXCEPT !.fields = Append(@, D!Fld("w", Named("In"), <<>>))])],
   [label |-> "output-type-in-argument", new |-> Set(s, "B", [T(s, "B") EXCEPT !.fields = Append(@, D!Fld("w", Named("Int"), <<D!Arg("q", Named("A"))>>))])],
   [label |-> "output-type-in-input-field", new |-> Set(s, "In", [T(s, "In") EXCEPT !.fields = Append(@, D!Arg("q", ListOf(Named("A"))))])],
@@ -42,15 +50,20 @@ Valid(l) == l \in {"valid-covariant-object-for-interface"}
 Mention == [x \in {v.label : v \in Violations(Base)} |->
    CASE x \in {"empty-object", "duplicate-field", "input-type-in-output-position", "output-type-in-argument"} -> "B"
      [] x = "bad-field-name" -> "__bad"  [] x = "bad-type-name" -> "__Bad"
+     [] x = "bad-argument-name" -> "__badarg"  [] x = "bad-input-field-name" -> "__badin"  [] x = "bad-input-field-name-dash" -> "bad-dash"
+     [] x = "bad-enum-value-name" -> "__BADV"  [] x = "field-name-with-trailing-newline" -> "nlname"  [] x = "type-name-with-trailing-newline" -> "NlType"
      [] x \in {"output-type-in-input-field", "empty-input", "duplicate-input-field"} -> "In"
      [] x \in {"union-member-not-object", "union-duplicate-member", "empty-union"} -> "U"
      [] x = "empty-enum" -> "E"
      [] x \in {"root-not-object", "no-query-root"} -> "uery"
      [] OTHER -> "Node"]
 \* which types a violation edits (pairs are only combined when they edit different types, so both stay injected)
-Edits(x) == CASE x \in {"empty-object", "duplicate-field", "bad-field-name", "input-type-in-output-position", "output-type-in-argument"} -> {"B"}
+Edits(x) == CASE x \in {"empty-object", "duplicate-field", "bad-field-name", "input-type-in-output-position", "output-type-in-argument",
+                         "bad-argument-name", "field-name-with-trailing-newline"} -> {"B"}
               [] x = "bad-type-name" -> {"__Bad"}
-              [] x \in {"output-type-in-input-field", "empty-input", "duplicate-input-field"} -> {"In"}
+              [] x = "type-name-with-trailing-newline" -> {"NlType"}
+              [] x = "bad-enum-value-name" -> {"E"}
+              [] x \in {"output-type-in-input-field", "empty-input", "duplicate-input-field", "bad-input-field-name", "bad-input-field-name-dash"} -> {"In"}
               [] x \in {"union-member-not-object", "union-duplicate-member", "empty-union"} -> {"U"}
               [] x = "empty-enum" -> {"E"}
               [] x \in {"root-not-object", "no-query-root", "valid-covariant-object-for-interface"} -> {"Query"}
@@ -66,8 +79,8 @@ Compose(a, b) ==   \* apply b's type edits on top of a (different types, so orde
                                                    THEN b.new.types[CHOOSE j \in 1..Len(b.new.types) : b.new.types[j].name = @[i].name] ELSE @[i]]]
 Init == \/ /\ mode = "single" /\ v \in Violations(Base) /\ w = [label |-> "none"]
         \/ /\ mode = "pair" /\ v \in {x \in Violations(Base) : ~Valid(x.label)}
-            /\ w \in {x \in Violations(Base) : ~Valid(x.label) /\ Edits(x.label) \cap Edits(v.label) = {} /\ x.label \notin {"bad-type-name", "root-not-object", "no-query-root"}
-                                                  /\ v.label \notin {"bad-type-name", "root-not-object", "no-query-root"}}
+            /\ w \in {x \in Violations(Base) : ~Valid(x.label) /\ Edits(x.label) \cap Edits(v.label) = {} /\ x.label \notin {"bad-type-name", "type-name-with-trailing-newline", "root-not-object", "no-query-root"}
+                                                  /\ v.label \notin {"bad-type-name", "type-name-with-trailing-newline", "root-not-object", "no-query-root"}}
         \/ /\ mode = "matrix" /\ v \in Matrix /\ w = [label |-> "none"]
 Next == FALSE /\ UNCHANGED vars
 Spec == Init /\ [][Next]_vars
